@@ -112,6 +112,10 @@ int secp256k1_whitelist_verify(const secp256k1_context* ctx, const secp256k1_whi
     if (sig->n_keys > MAX_KEYS || sig->n_keys != n_keys) {
         return 0;
     }
+    /* A ring over an empty key list proves nothing: its "signature" is a hash of public data. */
+    if (n_keys == 0) {
+        return 0;
+    }
     for (i = 0; i < sig->n_keys; i++) {
         int overflow = 0;
         secp256k1_scalar_set_b32(&s[i], &sig->data[32 * (i + 1)], &overflow);
